@@ -231,6 +231,21 @@ def vAggr (s : VSpec) (spec : AggSpec) (d : DS) : R DS :=
   (mapRows (vAggrRow (viralOf s d) base.ids base.comps d.rows) base.rows) >>= fun rows =>
   pure { ids := base.ids, meas := base.meas ++ (viralOf s d).names, rows := rows }
 
+/-! ### analytic invocation: the rule over the datapoints of every partition
+
+`op(DS over (partition by ps …))` is row-preserving; the viral value of a datapoint is the rule applied to the viral
+values of ALL datapoints of its partition (`vp_group_sql_windowed`, partition-only window).  The measures of an
+analytic invocation are the subject of C06; this operator returns the identifiers and the viral attributes only. -/
+
+def vPartRow (vs : VSpec) (ids ps : List String) (rows : List Row) (r : Row) : R (Option Row) :=
+  (groupVals vs (members ps rows (r.key ps))) >>= fun g =>
+  pure (some (r.proj ids ++ g))
+
+def vPartition (s : VSpec) (ps : List String) (d : DS) : R DS :=
+  if !(subset ps d.ids) then .error .type else
+  (mapRows (vPartRow (viralOf s d) d.ids ps d.rows) d.rows) >>= fun rows =>
+  pure { ids := d.ids, meas := (viralOf s d).names, rows := rows }
+
 /-! ### semantic analysis: every viral attribute of a result needs a rule (error 1-3-3-6) -/
 
 /-- how a statement's result structure derives its viral attributes. -/
